@@ -53,5 +53,6 @@ def check(w):
                 "each outcome must equal the specification's and the outcomes of the other arrangements",
         "action_coverage": cov, "negative_controls": nneg, "worker_crashes": counts.get("crashed", 0),
     }
+    v.coverage.update(p_sync.wire_coverage(counts))
     v.assumptions = ["run as root (devices can be created)", "the --no-* option forms are exercised only as the absence of the option"]
     return v.finish()
